@@ -388,6 +388,13 @@ func (l *listener) Accept() (transport.Pipe, error) {
 
 func (l *listener) handler(ws *websocket.Conn, req *http.Request) {
 	l.lock.Lock()
+	if !l.running {
+		// Closed while the upgrade was in progress: nobody will accept
+		// (or close) this connection any more.
+		l.lock.Unlock()
+		_ = ws.Close()
+		return
+	}
 
 	w := &wsPipe{
 		ws:      ws,
